@@ -71,6 +71,7 @@ const c01Explanation = "Static analysis of the codec's size agreement and dispat
 func propC01(c *Ctx) string {
 	c01Size(c)
 	c01Hdr(c)
+	c01FieldUse(c)
 	c01Const(c, "C01/CONST")
 	c.NotDecide("byte values against an independent reference codec (layout per spec)", "field-for-field equality after decode", "that encoding succeeds for every well-formed value", "binary.PutUvarint writes varintLen(n) bytes for n <= maxVarint (standard library fact, pinned by the CONST thresholds)")
 	c.Assume("write helpers fill exactly the bytes they report (summaries are extracted from their bodies; copy() into a buffer checked to be >= Len())")
@@ -476,24 +477,54 @@ func c01Const(c *Ctx, rule string) {
 		r.Check("packet.(*Decoder).Read:detection 2..5", !und && nPeek > 0 && peekOK && nOv > 0 && ovOK && start && step, rd.Decl.Pos(), la.Paths,
 			fmt.Sprintf("header detection must Peek 2,3,4,5 bytes in this order and give up only beyond 5: Peek sites %d (all within 2..5: %v), starts at 2: %v, grows by one per attempt: %v, overflow returns %d (only when the length exceeds 5: %v)", nPeek, peekOK, start, step, nOv, ovOK))
 	}
-	// length prefix
+	// length prefix: writeLPBytes accepts exactly the lengths 0..65535 (given a large enough buffer) and consumes
+	// 2 + len bytes — decided on the path summaries of the function (LIN), whatever the checks look like
 	if wl := c.P.Func("packet.writeLPBytes"); wl != nil {
 		c.Touch(wl.Name)
+		la := c.P.newLin()
+		sum := la.summary(wl.Obj, false)
 		lim, width := false, false
-		ast.Inspect(wl.Decl.Body, func(m ast.Node) bool {
-			if b, ok := m.(*ast.BinaryExpr); ok && b.Op == token.GTR {
-				if tv, has := wl.Pkg.TypesInfo.Types[b.Y]; has && tv.Value != nil && tv.Value.ExactString() == "65535" {
-					lim = true
+		why := ""
+		if sum != nil && len(sum.undec) == 0 && len(sum.params) >= 2 && sum.params[0].kind == lkSeq && sum.params[1].kind == lkSeq {
+			bufLen, dataLen := sum.params[0].ln, sum.params[1].ln
+			lim, width = true, true
+			nOK := 0
+			for _, p := range sum.paths {
+				if len(p.results) != 2 || p.results[1] == nil || p.results[1].kind != lkErr {
+					lim, why = false, "a path with untracked results"
+					continue
+				}
+				errNil := p.results[1].nil_
+				// (1) with 0 <= len <= 65535 and room for 2+len bytes no path may fail
+				small := append(append([]LE{}, p.cons...), leConst(65535).sub(dataLen), bufLen.sub(dataLen).sub(leConst(2)))
+				bs := 100000
+				if !infeasible(small, &bs) && errNil != -1 {
+					lim, why = false, "a length within 0..65535 can be refused although the buffer is large enough"
+				}
+				// (2) with len >= 65536 no path may succeed
+				big := append(append([]LE{}, p.cons...), dataLen.sub(leConst(65536)))
+				bb := 100000
+				if !infeasible(big, &bb) && errNil != 1 {
+					lim, why = false, "a length above 65535 can be accepted (the 2-byte prefix cannot hold it)"
+				}
+				// (3) a successful path consumes exactly 2 + len bytes
+				if errNil == -1 {
+					nOK++
+					n := p.results[0]
+					full := append(append([]LE{}, p.cons...), bufLen.sub(dataLen).sub(leConst(2)))
+					// (exact equality with 2 + len is the SIZE rule's business: copy() is modelled as "at most")
+					if n == nil || n.kind != lkInt || !la.prove(full, n.lin.sub(leConst(2))) || !la.prove(full, dataLen.add(leConst(2)).sub(n.lin)) {
+						width, why = false, "a successful path does not account for a 2-byte prefix plus at most len bytes"
+					}
 				}
 			}
-			if call, ok := m.(*ast.CallExpr); ok && len(call.Args) == 4 {
-				if tv, has := wl.Pkg.TypesInfo.Types[call.Args[2]]; has && tv.Value != nil && tv.Value.ExactString() == "2" {
-					width = true
-				}
+			if nOK == 0 {
+				lim, why = false, "no successful path"
 			}
-			return true
-		})
-		r.Check("packet.writeLPBytes:65535 limit, 2-byte prefix", lim && width, wl.Decl.Pos(), 1, "strings/bytes longer than 65535 are refused and the prefix is 2 bytes wide")
+		} else {
+			why = "writeLPBytes could not be summarised"
+		}
+		r.Check("packet.writeLPBytes:65535 limit, 2-byte prefix", lim && width, wl.Decl.Pos(), 1, "strings/bytes longer than 65535 are refused, everything up to 65535 is accepted, and the prefix is 2 bytes wide: "+why)
 	}
 	if rl := c.P.Func("packet.readLPBytes"); rl != nil {
 		c.Touch(rl.Name)
@@ -523,6 +554,7 @@ func propC02(c *Ctx) string {
 	c02Extent(c)
 	c02IntBounds(c)
 	c02Bounds(c, "C02")
+	c02Pool(c, "C02/POOL")
 	c01Const(c, "C02/CONST")
 	c.NotDecide("accept ≡ reference decoder with identical fields",
 		"semantic validation details (reserved bits, flag consistency) beyond the encoder/decoder agreement on application messages",
@@ -749,6 +781,46 @@ func c02Admit(c *Ctx, rule string) {
 							encOK = true
 						}
 					}
+				}
+				// under an admitted valuation with every other field well-formed the encoder must not refuse the message
+				// for a reason of its own (a constructed error in Encode itself): a validation the decoder does not have
+				// makes an admitted message unforwardable
+				if !topicEmpty && q <= 2 {
+					winit := map[types.Object]Val{}
+					for k, v := range einit {
+						winit[k] = v
+					}
+					if idf := c.P.Field("packet", tn, "ID"); idf != nil {
+						winit[idf] = vInt(1)
+					}
+					if tn == "Connect" {
+						winit[c.P.Field("packet", "Connect", "ClientID")] = Val{K: VNonEmpty}
+						winit[c.P.Field("packet", "Connect", "Username")] = Val{K: VEmpty}
+						winit[c.P.Field("packet", "Connect", "Password")] = Val{K: VEmpty}
+					}
+					win := c.P.TraceFunc(enc, TraceOpts{Init: winit})
+					var own *Trace
+					reason := ""
+					for _, t := range win.Traces {
+						if t.Exit != ExitReturn || len(t.Results) != 2 {
+							continue
+						}
+						call, isCall := ast.Unparen(t.Results[1]).(*ast.CallExpr)
+						if !isCall {
+							continue
+						}
+						if f, ok := typeutilCallee(enc.Pkg.TypesInfo, call).(*types.Func); !ok || (f.Name() != "makeError" && f.Pkg() != nil && f.Pkg().Name() == "packet" && f.Name() == "insufficientBufferSize") {
+							continue
+						}
+						own = t
+						for _, e := range t.Ev {
+							if e.Kind == EvCond && e.Cond != nil {
+								reason = c.P.exprStr(e.Cond) + fmt.Sprintf(" = %v", e.Outcome)
+							}
+						}
+					}
+					r.Check(key+":encoder has no refusal of its own", own == nil && len(win.Traces) > 0, enc.Decl.Pos(), len(win.Traces),
+						"the encoder refuses a well-formed application message under a condition outside the admit table ("+reason+"): the decoder admits it, forwarding it fails", shortWitness(c.witness(own))...)
 				}
 				// decoder
 				force := map[types.Object]Val{mf.msgQOS: vInt(q)}
@@ -1710,4 +1782,148 @@ func c02Bounds(c *Ctx, prefix string) {
 		}
 	}
 	c.Notes = append(c.Notes, fmt.Sprintf("LIN: %d functions summarised, %d paths, %d obligations, %d Fourier–Motzkin combination steps", len(la.sums), la.Paths, len(la.Obls), la.FM))
+}
+
+// c02Pool: the pooled buffer is shared by every Decoder and Encoder of the process. It may go back to the pool only
+// when nothing uses its bytes any more: pool.Put is deferred, or no Decode / Encode / Write of the buffer follows it on
+// the path (a packet decoded from a buffer that is already back in the pool can be overwritten mid-decode by another
+// connection: the decoded packet no longer depends on its own bytes only).
+func c02Pool(c *Ctx, rule string) {
+	r := c.Rule(rule, "TRACE", "packet.Decoder.Read / Encoder.Write: the pooled buffer is returned (sync.Pool.Put) only after its last use — by defer, or with no Decode/Encode/Write after the Put on any path", 2)
+	for _, name := range []string{"packet.(*Decoder).Read", "packet.(*Encoder).Write"} {
+		fi := c.mustFunc(r, name)
+		if fi == nil {
+			continue
+		}
+		in := c.traces(fi)
+		var bad *Trace
+		nPut := 0
+		for _, t := range in.Traces {
+			for i, e := range t.Ev {
+				f, ok := e.Callee.(*types.Func)
+				if e.Kind != EvCall || !ok || f.FullName() != "(*sync.Pool).Put" {
+					continue
+				}
+				nPut++
+				if e.Deferred {
+					continue
+				}
+				for _, p := range t.Ev[i+1:] {
+					if pf, ok := p.Callee.(*types.Func); ok && p.Kind == EvCall {
+						switch pf.Name() {
+						case "Decode", "Encode", "Write", "WriteAndFlush", "ReadFull":
+							bad = t
+						}
+					}
+				}
+			}
+		}
+		r.Check(name+":Put after last use", bad == nil && nPut > 0, fi.Decl.Pos(), len(in.Traces),
+			"the buffer goes back to the shared pool while its bytes are still being decoded / written", shortWitness(c.witness(bad))...)
+	}
+}
+
+// ---------------------------------------------------------------- C01/FIELDUSE
+
+// c01FieldUse: every field of a packet value influences its encoding: on every successful path of Encode each
+// exported field is read — except the two dependencies MQTT itself prescribes (the packet id of a PUBLISH is present
+// only for QoS > 0; the will's fields only when there is a will). A field whose contribution is made to depend on
+// ANOTHER field (the session-present bit only for an accepted CONNACK) is silently dropped for some values: the
+// decoder, which reads it unconditionally, yields a different packet.
+func c01FieldUse(c *Ctx) {
+	r := c.Rule("C01/FIELDUSE", "TRACE", "every exported field of each of the 14 packet types is read on every successful path of its Encode (allowed dependencies: Publish.ID only for QoS > 0, Connect.Will.* only with a will)", 14)
+	mf := c.msgFields()
+	willF := c.P.Field("packet", "Connect", "Will")
+	msgT := c.P.Named("packet", "Message")
+	for _, pt := range c.packetTypes() {
+		enc := c.P.ByObj[c.P.Method("packet", pt.name, "Encode")]
+		st, _ := pt.named.Underlying().(*types.Struct)
+		if enc == nil || st == nil {
+			r.Undecided("packet.(*"+pt.name+").Encode", 0, "not found")
+			continue
+		}
+		c.Touch(enc.Name)
+		want := map[*types.Var]string{}
+		for i := 0; i < st.NumFields(); i++ {
+			f := st.Field(i)
+			if !f.Exported() {
+				continue
+			}
+			ft := f.Type()
+			if p, ok := ft.(*types.Pointer); ok {
+				ft = p.Elem()
+			}
+			if msgT != nil && types.Identical(ft, msgT) {
+				ms := msgT.Underlying().(*types.Struct)
+				for j := 0; j < ms.NumFields(); j++ {
+					want[ms.Field(j)] = pt.name + "." + f.Name() + "." + ms.Field(j).Name()
+				}
+				continue
+			}
+			want[f] = pt.name + "." + f.Name()
+		}
+		if len(want) == 0 {
+			r.Pass("packet.(*"+pt.name+").Encode", enc.Decl.Pos(), 1, "no fields")
+			continue
+		}
+		acc := map[*types.Var]bool{}
+		for f := range want {
+			acc[f] = true
+		}
+		init := map[types.Object]Val{}
+		if pt.name == "Connect" && willF != nil {
+			init[willF] = Val{K: VNonNil}
+			acc[willF] = true
+		}
+		var inits []map[types.Object]Val
+		if pt.name == "Publish" {
+			for q := int64(0); q <= 2; q++ {
+				inits = append(inits, map[types.Object]Val{mf.msgQOS: vInt(q)})
+			}
+		} else {
+			inits = append(inits, init)
+		}
+		var bad *Trace
+		why := ""
+		nsucc := 0
+		for _, ini := range inits {
+			in := c.P.TraceFunc(enc, TraceOpts{Init: ini, Access: acc, Inline: func(f *types.Func) bool {
+				// same-package unexported helpers that take the packet (or its fields) apart are followed
+				return f.Pkg() != nil && f.Pkg().Name() == "packet" && !f.Exported() && (strings.HasSuffix(f.Name(), "Encode") || strings.HasPrefix(f.Name(), "encode"))
+			}, MaxDepth: 2})
+			if in.Over {
+				r.Undecided("packet.(*"+pt.name+").Encode", enc.Decl.Pos(), "path budget exhausted")
+				continue
+			}
+			for _, t := range in.Traces {
+				if t.Exit != ExitReturn || t.retErr() != -1 {
+					continue // only paths known to return a nil error
+				}
+				nsucc++
+				read := map[*types.Var]bool{}
+				for _, e := range t.Ev {
+					if e.Kind == EvAccess && !e.Write {
+						if fv, ok := e.LObj.(*types.Var); ok {
+							read[fv] = true
+						}
+					}
+				}
+				for f, label := range want {
+					if read[f] {
+						continue
+					}
+					if pt.name == "Publish" && f.Name() == "ID" {
+						if q, ok := ini[mf.msgQOS]; ok && q.K == VInt && q.I == 0 {
+							continue
+						}
+					}
+					if bad == nil {
+						bad, why = t, label
+					}
+				}
+			}
+		}
+		r.Check("packet.(*"+pt.name+").Encode", bad == nil && nsucc > 0, enc.Decl.Pos(), nsucc,
+			"field "+why+" is not read on a successful path of Encode: its value is dropped depending on another field, and decoding the bytes yields a different packet", shortWitness(c.witness(bad))...)
+	}
 }
